@@ -96,6 +96,11 @@ impl MDBShardFile {
             .unwrap_or_default()
             .as_secs();
 
+        #[cfg(xet_verif)]
+        if let Some(t) = utils::verif::clock() {
+            out_footer.shard_key_expiry = t + shard_valid_for.as_secs();
+        }
+
         let mut out_footer_bytes = Vec::<u8>::with_capacity(std::mem::size_of::<MDBShardFileFooter>());
         out_footer.serialize(&mut out_footer_bytes)?;
 
